@@ -29,12 +29,21 @@ Theorem C08_escape_attribute_invertible :
 Proof. exact escape_attr_roundtrip. Qed.
 Print Assumptions C08_escape_attribute_invertible.
 
+(* inputs_fit: no composite carries more components than its node defines (the writer leaves the surplus out —
+   fix f38f280 — while the event description lists every component); without it the statement is false:
+   C08_text_needs_fit *)
 Theorem C08_text_is_serialised_events :
   forall xs st chunks,
-    inputs_ok [] xs = true ->
+    inputs_ok [] xs = true -> inputs_fit xs = true ->
     run_model xs x_empty = (st, chunks, Ok tt) ->
     concat chunks = xml_decl ++ ser 0 (doc_events xs).
-Proof. exact xml_text_refines. Qed.
+Proof. exact xml_text_refines_corrected. Qed.
+Print Assumptions C08_text_is_serialised_events.
+
+Theorem C08_text_needs_fit :
+  inputs_ok [] fit_cex = true /\ inputs_fit fit_cex = false /\
+  exists st chunks, run_model fit_cex x_empty = (st, chunks, Ok tt) /\ concat chunks <> xml_decl ++ ser 0 (doc_events fit_cex).
+Proof. exact xml_text_refines_needs_fit. Qed.
 Print Assumptions C08_text_is_serialised_events.
 
 Theorem C08_events_balanced : forall xs, balanced [] (doc_events xs) = true.
